@@ -66,11 +66,12 @@ JudgeBanded(e) ==
 (* what the specification's own banded programme does on this input (it reproduces the
    known defect), for the classification of a disagreement *)
 ModelBanded(e) ==
-  IF e.big = 1 \/ ~Dom_Gap(e.gap) \/ ~BandOverlaps(e.band, Len(e.s1), Len(e.s2)) THEN <<FALSE, 0, TRUE, TRUE>>
+  IF e.big = 1 \/ ~Dom_Gap(e.gap) \/ ~BandOverlaps(e.band, Len(e.s1), Len(e.s2)) THEN <<FALSE, 0, TRUE, TRUE, FALSE>>
   ELSE LET r == BandedDP(e.s1, e.s2, e.M, e.gap, e.band, e.local)
            opt == UnrestrictedOpt(e.s1, e.s2, e.M, e.gap, e.local)
-       IN <<~e.local /\ KB_C09_BoundaryGap(e.M, e.gap), r.score, r.score <= opt,
-            \A t \in r.traces : BandedTraceHonest(t, r.score, e.s1, e.s2, e.M, e.gap, e.local)>>
+       IN <<~e.local /\ KB_C09_BoundaryGap(e.M, e.gap, AMax2(Len(e.s1), Len(e.s2))), r.score, r.score <= opt,
+            \A t \in r.traces : BandedTraceHonest(t, r.score, e.s1, e.s2, e.M, e.gap, e.local),
+            KB_C09_SentinelUnderflow(e.M, e.gap, e.local)>>
 
 (* ---------------------------------------------------------------- ungapped *)
 JudgeUngapped(e) ==
